@@ -24,6 +24,9 @@ MUTANTS = [
  ("poll: MSB dropped by inc/dec (no flush)", "PollingScanner.tla", "out |-> << Pn7(c, PNum(st), st.b, st.reg, DtEntry),\n                            Pn7(c, PNum(st), v, st.reg, dt) >>]", "out |-> << Pn7(c, PNum(st), v, st.reg, dt) >>]", "MC_Poll"),
  ("poll: flush carries the NEW number", "PollingScanner.tla", "out |-> Resolve(st, c)]", "out |-> Resolve([st EXCEPT !.nm = IF ismsb THEN byte ELSE st.nm], c)]", "MC_Poll"),
  ("poll (sender): further LSB combined with the old LSB", "PollingScanner.tla", "[st |-> Fvc(st.nm, st.nl, st.reg, v, st.b),", "[st |-> Fvc(st.nm, st.nl, st.reg, st.b, v),", "MC_Sender"),
+ ("poll: registered flag of a mixed-kind number taken from the MSB byte (PERMITTED reading: must be accepted)", "PollingScanner.tla",
+  "                ELSE [st |-> Wfv(IF st.ismsb THEN st.fb ELSE byte,          \\* complete\n                                 IF st.ismsb THEN byte ELSE st.fb, reg), out |-> <<>>]",
+  "                ELSE [st |-> Wfv(IF st.ismsb THEN st.fb ELSE byte,\n                                 IF st.ismsb THEN byte ELSE st.fb, IF ismsb THEN reg ELSE st.reg), out |-> <<>>]", "MC_Poll"),
  ("poll: a second LSB replaces the pending LSB (PERMITTED behaviour change: must be accepted)", "PollingScanner.tla", "ELSE [st |-> Wfv(st.nm, st.nl, st.reg), out |-> <<>>]           \\* LSB after LSB", "ELSE [st |-> Vp(st.nm, st.nl, st.reg, now, v, FALSE), out |-> <<>>]", "MC_Poll"),
 ]
 
